@@ -408,6 +408,32 @@ def splitRun (cs : List (Chain σ α)) (bufsize : Option Nat) (xs : List α) : S
 def project (i : Nat) (s : Strm (Nat × α)) : List α :=
   (s.vals.filter (fun p => p.1 == i)).map Prod.snd
 
+/-! ### `Split` used as a FillCompute element (`Split._fill`, `Split._compute`)
+
+When every branch has type "fill_compute", `Split.__init__` gives the `Split` the methods `fill` and `compute`
+(lines 215-217), so that it can itself be the fill/compute element of a `FillComputeSeq` or of an outer `Split`. -/
+
+/-- `Split._fill(val)` (lines 257-263): every branch is filled in turn (with a deep copy, except the last);
+an exception of a branch — `LenaStopFill` included — is not handled: the branches after it are not filled -/
+def splitFill : List (Active σ α) → α → FillRes (List (Active σ α))
+  | [], _ => .ok []
+  | B :: rest, v =>
+    match (chainSink B.chain.acc B.chain.pre).fill B.st v with
+    | .err e => .err e
+    | .stop st' => .stop ({ B with st := st' } :: rest)
+    | .ok st' => (splitFill rest v).map (fun act => { B with st := st' } :: act)
+
+/-- the `Split` as an element that is filled -/
+def splitSink : Sink (List (Active σ α)) α := ⟨splitFill⟩
+
+/-- the explicit loop `for v in xs: try: split.fill(v) except LenaStopFill: break`, then
+`list(split.compute())` (`Split._compute` = lines 265-268 = `finalCompute`); tagged -/
+def splitFillRun (cs : List (Chain σ α)) (xs : List α) : Strm (Nat × α) :=
+  match feedList splitSink (initActive 0 cs) xs with
+  | .err e => .fail e
+  | .ok act => finalCompute act
+  | .stop act => finalCompute act
+
 /-! ## eager reference: the flow processed stage by stage (what the elements *mean*) -/
 
 /-- no pre-processing element raises when the whole flow is passed through the chain stage by stage
@@ -707,6 +733,8 @@ inductive Spec where
   | junk
   /-- `lena.meta.SetContext(...)`: an element with `_has_no_data` -/
   | setContext
+  /-- `lena.flow.RunIf(5, *inner)`: a `select` that cannot be converted to a `Selector` -/
+  | runIfBad (inner : List Spec)
 
 /-- the synthetic classes' `fill` appends to a list, `compute` yields `["fc", [filled values]]` -/
 def synAcc : Acc AccState Value :=
@@ -760,6 +788,11 @@ def Spec.toObj : Spec → Except Exc Obj
           accDen := synAcc }
   | .junk => .ok { caps := capsOf [] false }
   | .setContext => .ok { caps := capsOf [] false, hasNoData := true }
+  | .runIfBad inner =>
+    -- the arguments are evaluated first, then `RunIf.__init__` fails on `select` (lines 176-183)
+    match Spec.toObjs inner with
+    | .error e => .error e
+    | .ok _ => .error .lenaTypeError
 def Spec.toObjs : List Spec → Except Exc (List Obj)
   | [] => .ok []
   | s :: ss =>
@@ -826,5 +859,155 @@ def driveSplit (branches : List (List Spec)) (bufsize : Option Nat) (flow : List
     | .ok cs =>
       if bufsize = some 0 then .error .lenaValueError
       else .ok (splitRunTagged cs bufsize flow)
+
+/-- `bufsize is None or (bufsize == int(bufsize) and bufsize >= 1)` (`Split.__init__` lines 228-233), for
+integer arguments -/
+def bufsizeOk : Option Int → Bool
+  | none => true
+  | some b => decide (1 ≤ b)
+
+/-- `Split(seqs, bufsize)` with `seqs` a list or not (line 188), integer or `None` bufsize: the order of the
+checks is: `seqs` is a list; every branch is converted; `bufsize` is valid -/
+def driveSplitI (isList : Bool) (branches : List (List Spec)) (bufsize : Option Int) (flow : List Value) :
+    Except Exc (Strm (Nat × Value)) :=
+  match Spec.toObjss branches with
+  | .error e => .error e
+  | .ok oss =>
+    if !isList then .error .lenaTypeError
+    else
+      match mkChains oss with
+      | .error e => .error e
+      | .ok cs =>
+        if !bufsizeOk bufsize then .error .lenaValueError
+        else .ok (splitRunTagged cs (bufsize.map Int.toNat) flow)
+
+/-- `sp = Split([...])` with only fill_compute branches, used through `sp.fill` / `sp.compute` -/
+def driveSplitFill (branches : List (List Spec)) (flow : List Value) : Except Exc (Strm (Nat × Value)) :=
+  match Spec.toObjss branches with
+  | .error e => .error e
+  | .ok oss =>
+    match mkChains oss with
+    | .error e => .error e
+    | .ok cs => .ok (splitFillRun cs flow)
+
+/-- `FillSeq(*args)` (lines 44-59): at least one argument; the last data element must have a callable `fill`
+(`self._data_seq[-1]` raises `IndexError` when no argument is a data element); the others are converted -/
+def mkFillSeqArgs (args : List Obj) : Except Exc (List (Pre Value)) :=
+  if args.isEmpty then .error .lenaTypeError
+  else
+    match (dataSeq args).reverse with
+    | [] => .error .indexError
+    | last :: revBefore => mkFillSeq revBefore.reverse last
+
+def driveFillSeqInit (args : List Spec) : Except Exc Unit :=
+  match Spec.toObjs args with
+  | .error e => .error e
+  | .ok os =>
+    match mkFillSeqArgs os with
+    | .error e => .error e
+    | .ok _ => .ok ()
+
+/-- the semantic chain of `FillComputeSeq(*args)`, if it can be built, run as a `Sequence` (`seqRun`) -/
+def driveSeqOfChain (args : List Spec) (flow : List Value) : Option (Strm Value) :=
+  match Spec.toObjs args with
+  | .error _ => none
+  | .ok os =>
+    match mkFillComputeSeq os with
+    | .error _ => none
+    | .ok c => some (seqRun c flow)
+
+/-- executable form of "the element description is of the property's pre-processing kinds" -/
+def Spec.inScopeB : Spec → Bool
+  | .call _ => true
+  | .var _ _ => true
+  | .filter _ => true
+  | .slice a b s =>
+    match Lena.C17.mkSlice a b s with
+    | .islice _ _ _ => true
+    | _ => false
+  | .runIf _ _ => true
+  | _ => false
+
+/-! ## specification side of the adapters (used by `Props/C05.lean`, evaluated by the driver) -/
+
+/-- the documented capability each adapter needs -/
+def callAccepts (c : Caps) : Option String → Bool
+  | none => c.callable
+  | some n => c.hasMethod n
+
+def sourceElAccepts (c : Caps) : Option String → Bool
+  | none => c.callable || (c.attr "__iter__").present
+  | some n => c.hasMethod n
+
+def runAccepts (c : Caps) : Option String → Bool
+  | none => c.hasMethod "run" || c.callable || c.isFillComputeEl
+  | some n => c.isNone || c.hasMethod n
+
+def fillIntoAccepts (c : Caps) : Option String → Bool
+  | none => c.hasMethod "fill_into" || (c.callable && !c.isSplit) || (c.isRunEl && (c.attr "_can_break_flow").present)
+  | some n => c.hasMethod n
+
+def fillComputeAccepts (c : Caps) (fill compute : String) : Bool :=
+  c.hasMethod fill && (c.hasMethod compute || c.hasMethod "request")
+
+/-- what an accepted adapter is bound to -/
+def callBinding : Option String → CallMode
+  | none => .self
+  | some n => .method n
+
+def sourceElBinding (c : Caps) : Option String → CallMode
+  | none => if c.callable then .self else .iter
+  | some n => .method n
+
+def runBinding (c : Caps) : Option String → RunMode
+  | none => if c.hasMethod "run" then .method "run" else if c.callable then .callRun else .fcRun
+  | some n => if c.isNone then .given else .method n
+
+def fillIntoBinding (c : Caps) : Option String → FillIntoMode
+  | none => if c.hasMethod "fill_into" then .method "fill_into"
+            else if c.callable && !c.isSplit then .callDefault else .runFillInto
+  | some n => .method n
+
+def fillComputeBinding (c : Caps) (fill compute : String) : String × String :=
+  (fill, if c.hasMethod compute then compute else "request")
+
+
+/-! ## one element, two faces: the two sides of the driver-consistency lemmas, executable -/
+
+/-- `StoreFilled()`-like sink on values -/
+def storeSinkV : Sink (List Value) Value := ⟨fun s v => .ok (s ++ [v])⟩
+
+/-- for the element `s` used as a pre-processing element and an input flow that yields `flow` and then ends with
+`term`: (what `FillSeq(el, store)` filled value by value leaves in the store, and how the filling ended;
+what `el.run(flow)` — after conversion by `Sequence` — yields) -/
+def driveStage (s : Spec) (flow : List Value) (term : Option Exc) :
+    Except Exc (FillRes (List Value) × Strm Value) :=
+  match s.toObj with
+  | .error e => .error e
+  | .ok o =>
+    if o.hasNoData then .ok (feedS storeSinkV [] ⟨flow, term⟩, ⟨flow, term⟩)   -- not a data element: dropped by both
+    else
+      match o.toPre, o.toStage with
+      | .ok p, .ok st =>
+        .ok ((feedS (stageSink p storeSinkV) (p.initState, []) ⟨flow, term⟩).map Prod.snd, observe (st ⟨flow, term⟩))
+      | _, _ => .error .lenaTypeError
+
+/-! ## specification side of `count_dual` (a bare `Count` at the accumulator position) -/
+
+/-- the context of the last value of a flow (`d` for an empty flow) -/
+def lastCtxOr (d : Ctx) (ys : List Value) : Ctx :=
+  match ys.getLast? with
+  | none => d
+  | some v => getContext v
+
+/-- the context of the last value of a flow (`{}` for an empty flow) -/
+def lastCtx (ys : List Value) : Ctx := lastCtxOr [] ys
+
+/-- what `Count(name).run` yields for the flow `ys`: the values, the last one with `{name: len(ys)}` added to its
+context -/
+def countRunSpec (name : String) (ys : List Value) : List Value :=
+  match ys.getLast? with
+  | none => []
+  | some last => ys.dropLast ++ [.tup [getData last, .dict (dictSet (getContext last) name (.int ys.length))]]
 
 end Lena.C05
